@@ -216,15 +216,23 @@ pub fn c05_bfs_predecessors_n4() {
 }
 
 // BfsPred::shortest_path over every digraph on 4 vertices x every source set x every target predicate.
-// @verif prop=C05 tier=quick fl=f2 role=bfs-shortest-path/array t=1200 mem=14
+// @verif prop=C05 tier=thorough fl=f2 role=bfs-shortest-path/array t=3600 mem=30
 #[cfg_attr(kani, kani::proof)]
 #[cfg_attr(kani, kani::unwind(7))]
 pub fn c05_bfs_shortest_path_n4() {
     bfs_shortest_path::<4>();
 }
 
+// BfsPred::shortest_path over every digraph on 3 vertices x every source set x every target predicate.
+// @verif prop=C05 tier=quick fl=f2 role=bfs-shortest-path/array t=1200 mem=14
+#[cfg_attr(kani, kani::proof)]
+#[cfg_attr(kani, kani::unwind(6))]
+pub fn c05_bfs_shortest_path_n3() {
+    bfs_shortest_path::<3>();
+}
+
 // BfsPred::cycles over every digraph on 3 vertices, every single source.
-// @verif prop=C05 tier=quick fl=f2 role=bfs-cycles/array t=1200 mem=14
+// @verif prop=C05 tier=thorough fl=f2 role=bfs-cycles/array t=3600 mem=30
 #[cfg_attr(kani, kani::proof)]
 #[cfg_attr(kani, kani::unwind(6))]
 pub fn c05_bfs_cycles_n3() {
@@ -301,15 +309,15 @@ fn pred_base() {
     core::mem::forget(it);
 }
 
-fn pred_step<const H: usize, const H2: usize>() {
+fn pred_step<const H: usize, const H2: usize>(wmax: usize) {
     const N: usize = 3;
 
-    cx::set_vcap(8);
+    cx::set_vcap(H2.max(4));
 
-    let g = any_dense::<N>(WMAX);
+    let g = any_dense::<N>(wmax);
     let src: [bool; N] = nd::bools();
     let delta = g.dist(&src);
-    let bound = N * WMAX;
+    let bound = N * wmax;
     let mut it = DijkstraPred::new(&g, mask([false; N]));
     let mut dist = [INF; N];
     let settled: [bool; N] = nd::bools();
@@ -449,15 +457,23 @@ pub fn c05_dijkstra_pred_base_n3() {
 }
 
 // Inductive step of DijkstraPred::next from ANY invariant state (3 vertices, <= 3 heap entries): tree condition for every yield.
-// @verif prop=C05 tier=quick fl=f2 role=dijkstra-inductive/step t=2400 mem=24
+// @verif prop=C05 tier=quick fl=f2 role=dijkstra-inductive/step t=3000 mem=24 feat=cap4
 #[cfg_attr(kani, kani::proof)]
 #[cfg_attr(kani, kani::unwind(6))]
 pub fn c05_dijkstra_pred_step_n3_h3() {
-    pred_step::<3, 5>();
+    pred_step::<3, 4>(256);
+}
+
+// The same step with weights < 2^62.
+// @verif prop=C05 tier=thorough fl=f2 feat=cap4 role=dijkstra-inductive/step-large t=3600 mem=30
+#[cfg_attr(kani, kani::proof)]
+#[cfg_attr(kani, kani::unwind(6))]
+pub fn c05_dijkstra_pred_step_large_n3_h3() {
+    pred_step::<3, 4>(WMAX);
 }
 
 // predecessors() and shortest_path() wrappers, whole run on 2 vertices.
-// @verif prop=C05 tier=quick fl=f2 role=dijkstra-wrappers/whole-run-n2 t=1800 mem=16
+// @verif prop=C05 tier=thorough fl=f2 role=dijkstra-wrappers/whole-run-n2 t=3600 mem=30
 #[cfg_attr(kani, kani::proof)]
 #[cfg_attr(kani, kani::unwind(5))]
 pub fn c05_dijkstra_pred_wrappers_n2() {
